@@ -1,6 +1,7 @@
 package main
 
 import (
+	"context"
 	"fmt"
 	"go/ast"
 	"go/token"
@@ -222,6 +223,27 @@ func (e *Engine) VerifyFunctionFor(fn *ssa.Function, safe bool, prop string) (re
 			o.Extra = map[string]string{"undeclared": strings.Join(extra, " ")}
 		}
 	}
+	// vacuity guard: the path condition of every block that carries an obligation must be satisfiable together with
+	// the assumptions made before it (an inconsistent assumed contract would otherwise discharge everything after it)
+	seenGuard := map[string]bool{}
+	n0 := len(vc.obls)
+	for i := 0; i < n0; i++ {
+		o := vc.obls[i]
+		switch o.Kind {
+		case "site", "post", "pre@call", "inv-entry", "inv-pres", "frame-obj":
+		default:
+			continue
+		}
+		key := fmt.Sprintf("%s|%d", o.Guard, o.Cut)
+		if seenGuard[o.Guard] || o.Guard == "true" || o.Guard == "false" {
+			continue
+		}
+		seenGuard[o.Guard] = true
+		_ = key
+		c := vc.oblige("cover", fmt.Sprintf("%s/cover/path:%s", fnName(fn), o.Name), nil, o.Guard, "true", fn, token.NoPos, "path to this obligation is feasible")
+		c.Cut = o.Cut
+		c.Pos = o.Pos
+	}
 	res.Obls = vc.obls
 	res.Warnings = vc.warnings
 	return
@@ -276,7 +298,13 @@ func Discharge(obls []*Obligation, timeoutMs int, workers int) {
 			return
 		}
 		script := o.VC.script(o, true)
-		r := solve(script, timeoutMs, false)
+		var r SolverResult
+		if o.Kind == "cover" && strings.Contains(o.Name, "/cover/path:") {
+			// only a quick refutation matters here: unsat means the path assumptions are contradictory
+			r = runSolver(context.Background(), solvers[0], script, 1500)
+		} else {
+			r = solve(script, timeoutMs, false)
+		}
 		o.Res = r
 		if o.Kind == "cover" {
 			switch r.Verdict {
